@@ -55,7 +55,36 @@ func runC13(t *testing.T, tp *simrt.Tape, keepTrace bool) hx.Result {
 		var d []string
 		for i := 0; i < n; i++ {
 			p := paths[tp.Gen(len(paths))]
-			switch tp.Gen(7) {
+			switch tp.Gen(10) {
+			case 7:
+				// catch up: the path gets exactly the blob another branch has at the same path
+				// (cherry-pick / merge of one file); the other branch does not change
+				other := allBranches[tp.Gen(len(allBranches))]
+				if other != b {
+					if c, ok := g.tree(other)[p]; ok {
+						ops = append(ops, gFileOp{kind: "write", path: p, content: c})
+						d = append(d, "take "+p+" from "+other)
+					}
+				}
+			case 8:
+				// the whole tree becomes the other branch's tree (a merge that makes them equal)
+				other := allBranches[tp.Gen(len(allBranches))]
+				if other != b {
+					ot := g.tree(other)
+					for q := range g.tree(b) {
+						if _, ok := ot[q]; !ok {
+							ops = append(ops, gFileOp{kind: "delete", path: q})
+						}
+					}
+					for q, c := range ot {
+						ops = append(ops, gFileOp{kind: "write", path: q, content: c})
+					}
+					d = append(d, "sync tree with "+other)
+				}
+			case 9:
+				// delete on this branch a path that exists elsewhere too
+				ops = append(ops, gFileOp{kind: "delete", path: p})
+				d = append(d, "delete "+p)
 			case 0, 1, 2:
 				counter++
 				c := fmt.Sprintf("content %d of %s\nline two\n", counter, p)
@@ -108,6 +137,15 @@ func runC13(t *testing.T, tp *simrt.Tape, keepTrace bool) hx.Result {
 			} else {
 				branches = allBranches
 			}
+		}
+		if tp.Gen(5) == 0 {
+			// the same branches, listed in another order (a delta build must cope or fall back)
+			nb := append([]string(nil), branches...)
+			for x := len(nb) - 1; x > 0; x-- {
+				y := tp.Gen(x + 1)
+				nb[x], nb[y] = nb[y], nb[x]
+			}
+			branches = nb
 		}
 		o := gOpts(g.dir, indexDir, branches)
 		switch kind {
